@@ -1,6 +1,6 @@
 (* C11/Props.v — property-level theorems only. Tags are read by bin/check. *)
 From Coq Require Import List NArith Lia.
-From BLB Require Import Gen.Consts Meta.AMap Meta.Curator Meta.CuratorFacts Meta.CuratorInv C11.Proofs C11.ProofsInv.
+From BLB Require Import Gen.Consts Meta.AMap Meta.Curator Meta.CuratorFacts Meta.CuratorInv C11.Proofs C11.ProofsInv C11.ProofsG C11.BridgeC13.
 Import ListNotations.
 Open Scope N_scope.
 
@@ -220,6 +220,32 @@ Proof.
 Qed.
 Print Assumptions known_tsids_cover_all_holders.
 
+(* [FULL] clause g under the layout hypothesis layout_sub, every data piece of a submitted CommitRSChunk is accepted by checkTractSpec for RSPieceLength, which is what C13 proved about packTracts, see packtracts_layouts_satisfy_layout_sub: inv_g is preserved by every Apply, holds in every state reachable by such commands from the empty database, and means that every RS pointer of every tract of every blob names a chunk present in the chunk table, one of whose pieces lists exactly that blob id and tract index at an extent that ends inside the piece and overlaps no other extent of the piece; every stored piece is moreover sorted and in range. Only the direction tract to chunk is claimed, UpdateStorageClass may leave chunk entries behind *)
+Theorem rs_pointers_well_formed :
+  (forall d i c d' r, dapply d i c = Some (d', r) -> cinv d -> layout_sub c -> inv_g d -> inv_g d') /\
+  (forall cs d rs, dapply_all d_init cs = Some (d, rs) -> Forall (fun e => layout_sub (snd e)) cs -> inv_g d) /\
+  (forall d id b m t cls cid, inv_g d ->
+     aget id (d_blobs d) = Some b -> nth_error (b_tracts b) m = Some t -> rs_get cls t = Some cid ->
+     exists ch piece r, aget (chunk_key cid) (d_chunks d) = Some ch /\ In piece (c_data ch) /\ In r piece /\
+       rt_blob r = id /\ rt_idx r = N.of_nat m /\ rt_off r + rt_len r <= c_meta_RSPieceLength /\
+       forall i j ri rj, (i < j)%nat -> nth_error piece i = Some ri -> nth_error piece j = Some rj ->
+                         rt_off ri + rt_len ri <= rt_off rj).
+Proof.
+  split; [exact inv_g_step|]. split; [|exact inv_g_meaning].
+  intros cs d rs H Hs. eapply inv_g_run; eauto; [exact cinv_init|exact inv_g_init].
+Qed.
+Print Assumptions rs_pointers_well_formed.
+
+(* [FULL] the layout hypothesis is what C13 proved: for tract lengths whose padded length fits RSPieceLength, every chunk that first-fit-decreasing packTracts produces, transcribed extent by extent into CommitRSChunk entries with any tract ids and versions, is a piece accepted by cmd_spec within RSPieceLength; uses C13 pack_layout_wf *)
+Theorem packtracts_layouts_satisfy_layout_sub :
+  forall lens (mk : C13.Model.ext -> enc_tract),
+    (forall x, et_off (mk x) = C13.Model.e_off x /\ et_len (mk x) = C13.Model.e_len x) ->
+    Forall (fun l => C13.Model.padded l <= c_meta_RSPieceLength) lens ->
+    Forall (fun c => exists e, cmd_spec 0 (map mk (C13.Model.pc_exts c)) = Some e /\ e <= c_meta_RSPieceLength)
+           (C13.Model.ffd lens c_meta_RSPieceLength).
+Proof. exact packed_layouts_accepted. Qed.
+Print Assumptions packtracts_layouts_satisfy_layout_sub.
+
 (* non-vacuity: a history with two creates, an extend, a replica change, a delete, a final delete and a re-create; the
    hypotheses of the step theorems are met at every step (cinv by meta_inv_reachable) and the conclusions are not trivial *)
 Definition ex11 : list (N * cmd) :=
@@ -245,3 +271,38 @@ Qed.
 
 Example ex11_hosts_sub : Forall (fun e => hosts_sub (snd e)) ex11.
 Proof. repeat constructor; cbn; unfold host_ok, two20; repeat constructor; lia. Qed.
+
+(* non-vacuity for clause g: one chunk whose first piece packs tract 0 of blob A and tract 0 of blob B; B is deleted and
+   finally deleted; A's pointer still names the chunk, whose piece now lists only A's tract *)
+Definition exg : list (N * cmd) :=
+  [(1, CSetReg 1); (2, CAddPart 1); (3, CCreate 3 (1600000000 * nano) 0 0); (4, CCreate 3 (1600000001 * nano) 0 0);
+   (5, CExtend 4294967297 0 [[1; 2; 3]]); (6, CExtend 4294967298 0 [[4; 5; 6]]); (7, CAllocRS 9);
+   (8, CCommitRS (2147483649, 1) c_ClassRS63 [1; 2; 3; 4; 5; 6; 7; 8; 9]
+         [[mkET 4294967297 0 0 100 2; mkET 4294967298 0 4096 200 2]; []; []; []; []; []]);
+   (9, CDelete 4294967298 (1600000005 * nano)); (10, CFinishDelete (1600000009 * nano) [4294967298])].
+
+Example exg_layout_sub : Forall (fun e => layout_sub (snd e)) exg.
+Proof.
+  repeat constructor; cbn; try (exists 4296; split; [reflexivity|unfold c_meta_RSPieceLength; lia]);
+    try (exists 0; split; [reflexivity|unfold c_meta_RSPieceLength; lia]).
+Qed.
+
+Example exg_run :
+  exists d rs bA tA ch,
+    dapply_all d_init exg = Some (d, rs) /\ nth_error rs 7 = Some [1; e_NoError] /\
+    aget 4294967298 (d_blobs d) = None /\ aget 4294967297 (d_blobs d) = Some bA /\
+    nth_error (b_tracts bA) 0 = Some tA /\ rs_get c_ClassRS63 tA = Some (2147483649, 1) /\ t_version tA = 2 /\
+    aget (chunk_key (2147483649, 1)) (d_chunks d) = Some ch /\
+    nth_error (c_data ch) 0 = Some [mkRT 4294967297 0 100 0].
+Proof.
+  pose (d := match dapply_all d_init exg with Some (d, _) => d | None => d_init end).
+  pose (rs := match dapply_all d_init exg with Some (_, r) => r | None => [] end).
+  pose (b := match aget 4294967297 (d_blobs d) with Some b => b | None => mkBlob 9 9 9 9 9 9 9 [] end).
+  pose (t := match nth_error (b_tracts b) 0 with Some t => t | None => mkTract [] 99 None None None None end).
+  pose (ch := match aget (chunk_key (2147483649, 1)) (d_chunks d) with Some c => c | None => mkChunk [] [] end).
+  exists d, rs, b, t, ch. repeat (match goal with |- _ /\ _ => split end); vm_compute; reflexivity.
+Qed.
+
+(* and the theorem applies to it *)
+Example exg_inv_g : forall d rs, dapply_all d_init exg = Some (d, rs) -> inv_g d.
+Proof. intros d rs H. exact (proj1 (proj2 rs_pointers_well_formed) exg d rs H exg_layout_sub). Qed.
